@@ -95,8 +95,8 @@ def expect(keyword, inverted, has_param, shape, values):
         present = [(i, v) for i, v in enumerate(values)
                    if v is not MISSING and v != "<null-member>"]
     if keyword in ("MAX", "MIN"):
-        if shape != "seq" and any(v is None for _, v in present):
-            raise Unspec("null attribute under max/min")
+        # (a null value / attribute is not comparable: never among the
+        # greatest or least, always among "the others")
         cands = [(i, v) for i, v in present if v is not None]
         if not cands:
             plain = []
